@@ -16,7 +16,7 @@ ID = "C04"
 QUICK_RUNS = 2400
 CHUNK = 20
 THOROUGH_BUDGET_S = 900
-WATCHDOG = 120.0
+WATCHDOG = 45.0
 LEVEL = "exploration"
 RULE = (
     "one run = (words world: alphabet 2-3, <=4 patterns of length <=4, prefix <=2, 0-2 tracked statistics) x (pack: masks, lazy/eager "
